@@ -100,10 +100,14 @@ func (i *imports) Imports() []Import {
 }
 
 func (i *imports) decorateImport(imp string) string {
-	for shortcut, path := range i.prefixes {
-		if strings.Index(imp, shortcut) == 0 {
-			return strings.Replace(imp, shortcut, path, 1)
+	// an alias replaces the whole first element of the path only,
+	// e.g. alias "os" must not rewrite "ostrich/pkg"
+	first, rest, _ := strings.Cut(imp, "/")
+	if path, ok := i.prefixes[first]; ok {
+		if rest == "" {
+			return path
 		}
+		return path + "/" + rest
 	}
 
 	return imp
